@@ -194,6 +194,10 @@ func (pool *TransactionsPool) addTransaction(transaction *ledger.Transaction) er
 	if _, err = pool.utxosManager.CalculateFee(transaction, nextBlockTimestamp); err != nil {
 		return fmt.Errorf("failed to verify fee against confirmed UTXOs: %w", err)
 	}
+	// Replay the transaction itself, as block production will, so that a transaction spending the same output twice is refused
+	if err = utxoManagerCopy.UpdateUtxos([]*ledger.Transaction{transaction}, nextBlockTimestamp); err != nil {
+		return fmt.Errorf("failed to update UTXOs: %w", err)
+	}
 	pool.mutex.Lock()
 	defer pool.mutex.Unlock()
 	pool.transactions = append(pool.transactions, transaction)
